@@ -45,6 +45,25 @@ const URLS: &[&str] = &[
     "file:///https://x",
     "data:https://x",
     "mailto:https@example.com",
+    // hosts a "development convenience" exemption would single out
+    "http://localhost/revoke",
+    "http://localhost:8080/revoke",
+    "http://127.0.0.1/revoke",
+    "http://127.0.0.1:3000/revoke?x=1",
+    "http://127.8.9.1/revoke",
+    "http://[::1]/revoke",
+    "http://[::1]:8443/revoke",
+    "http://LOCALHOST/revoke",
+    "http://sub.localhost/revoke",
+    "http://0.0.0.0/revoke",
+    "http://10.0.0.1/revoke",
+    "http://192.168.1.1/revoke",
+    "http://as.example:443/revoke",
+    "http://https/revoke",
+    "http://https@as.example/revoke",
+    "ws://localhost/revoke",
+    "https://localhost/revoke",
+    "https://127.0.0.1/revoke",
 ];
 
 enum Seen {
